@@ -108,6 +108,19 @@ def wrapOutput (s : State) (cap : Option Nat) (oRv : RV) (oLen : Nat) (oData : O
       | some c => if c < oLen then (s, { rv := CKR.BUFFER_TOO_SMALL, nums := [oLen] })
                   else (s, { rv := CKR.OK, nums := [oLen], vals := [oData] }))
 
+/-- does the key satisfy the wrap template?  `some false`: an entry the model can compare differs or is missing; `some true`: all entries compared and
+    equal; `none`: the entries the model compares agree, others (byte strings) are left to the observation -/
+def wrapTemplateVerdict (tpl : List (Nat × Nat × Bytes)) (key : Attrs) : Option Bool :=
+  let det := tpl.filter fun e => e.2.1 == 1 || e.2.1 == 2
+  let bad := det.any fun (ty, kind, raw) =>
+    match getA key ty with
+    | some (.bool b) => !(kind == 1 && raw == [if b then 1 else 0])
+    | some (.ulong n) => !(kind == 2 && raw == ulongLE n)
+    | some _ => true
+    | none => true
+  let missing := tpl.any fun e => (getA key e.1).isNone
+  if bad || missing then some false else if det.length == tpl.length then some true else none
+
 /-- C_WrapKey.  `o`: observation (used for what is not computed: RSA-wrapped blobs, PKCS#8 of private keys, the WRAP_TEMPLATE comparison) -/
 def stepWrap (s : State) (h mech : Nat) (p : MParam) (wkH keyH : Nat) (cap : Option Nat) (oRv : RV) (oLen : Nat) (oData : Option Bytes) : State × Resp :=
   match s.handles.getSess h with
@@ -145,9 +158,12 @@ def stepWrap (s : State) (h mech : Nat) (p : MParam) (wkH keyH : Nat) (cap : Opt
             if kcls != CKO.SECRET_KEY && kcls != CKO.PRIVATE_KEY then rOnly s CKR.KEY_NOT_WRAPPABLE
             else if rsaMech && kcls != CKO.SECRET_KEY then rOnly s CKR.KEY_NOT_WRAPPABLE
             else
-              -- CKA_WRAP_TEMPLATE of the wrapping key: its comparison with the key's attributes is read from the observation
-              let hasTpl := match getA wk.attrs 0x40000211 with | some (.amap (_ :: _)) => true | _ => false
-              if hasTpl && oRv == CKR.KEY_NOT_WRAPPABLE then rOnly s CKR.KEY_NOT_WRAPPABLE
+              -- CKA_WRAP_TEMPLATE of the wrapping key: every entry must be an attribute of the key with the same value.  Boolean and integer entries are
+              -- compared here; byte-string entries (compared with the STORED bytes, which are ciphertext for private keys) follow the observation
+              let tpl := match getA wk.attrs 0x40000211 with | some (.amap l) => l | _ => []
+              let verdict := wrapTemplateVerdict tpl key.attrs
+              if verdict == some false then rOnly s CKR.KEY_NOT_WRAPPABLE
+              else if verdict == none && oRv == CKR.KEY_NOT_WRAPPABLE then rOnly s CKR.KEY_NOT_WRAPPABLE
               else
                 wrapOutput s cap oRv oLen oData (wrapComputed mech p kcls wcls key.attrs wk.attrs)
 
